@@ -82,21 +82,25 @@ def _c(cp):
 
 class St:
     """abstract state at a program point"""
-    __slots__ = ("lb", "ub", "cons", "enq", "win")
+    __slots__ = ("lb", "ub", "cons", "enq", "win", "pend")
 
-    def __init__(self, lb, ub, cons, enq, win):
-        self.lb, self.ub, self.cons, self.enq, self.win = lb, ub, cons, enq, win
+    def __init__(self, lb, ub, cons, enq, win, pend=frozenset()):
+        self.lb, self.ub, self.cons, self.enq, self.win, self.pend = lb, ub, cons, enq, win, pend
 
     def key(self):
-        return (self.lb, self.ub, self.cons, self.enq, self.win)
+        return (self.lb, self.ub, self.cons, self.enq, self.win, self.pend)
 
     def join(self, o):
-        return St(min(self.lb, o.lb), max(self.ub, o.ub), self.cons and o.cons, self.enq and o.enq, tuple(a | b for a, b in zip(self.win, o.win)))
+        return St(min(self.lb, o.lb), max(self.ub, o.ub), self.cons and o.cons, self.enq and o.enq, tuple(a | b for a, b in zip(self.win, o.win)),
+                  self.pend | o.pend)
 
     def copy(self, **kw):
-        s = St(self.lb, self.ub, self.cons, self.enq, self.win)
+        s = St(self.lb, self.ub, self.cons, self.enq, self.win, self.pend)
         for k, v in kw.items():
             setattr(s, k, v)
+            if k == "cons" and v is True:
+                # something was consumed: no loop head of this function is pending any more
+                s.pend = frozenset()
         return s
 
 
@@ -118,6 +122,12 @@ class E1B:
         self.entry_classes = {}     # fnkey -> list of (win tuple, caller key)
         self.pushes = {}            # (fnkey, bb) -> {"masks": OR of masks, "const": set, "buf": expr str}
         self.site_cons = {}         # (fnkey, bb) -> bool: callee consumed in every context reached at this call site
+        self.spins = {}             # (fnkey, loop head) -> count: a state came back to the head with nothing consumed since the last visit
+        self.loop_heads_seen = set()
+        self.spin_sources = {}
+        self._headcache = {}
+        self._bodycache = {}
+        self.call_entries = {}      # callee -> {(caller, bb): [(window, args)...]} (sampled, for diagnostics and per-site obligations)
         self.touch = self._touching()
         for lem in self.lemmas:
             f = self.F.fns.get(lem["fn"])
@@ -160,6 +170,20 @@ class E1B:
                     st.append(c)
         return seen
 
+    def _bodies(self, f):
+        b = self._bodycache.get(f.key)
+        if b is None:
+            b = {hd: body for hd, body in f.natural_loops()}
+            self._bodycache[f.key] = b
+        return b
+
+    def _heads(self, f):
+        h = self._headcache.get(f.key)
+        if h is None:
+            h = {hd for hd, body in f.natural_loops()}
+            self._headcache[f.key] = h
+        return h
+
     # ------------------------------------------------------------------------------------------
     def site(self, fnkey, bb, prim):
         return self.sites.setdefault((fnkey, bb), {"prim": prim, "ok": 0, "bad": []})
@@ -200,7 +224,10 @@ class E1B:
             if a is not TOP:
                 env0[i + 1] = a
         st0 = st0.copy(cons=False, enq=False)
-        start = (0, self._envkey(env0))
+        st0.pend = frozenset()
+        heads = self._heads(f)
+        bodies = self._bodies(f)
+        start = (0, self._envkey(env0), (st0.ub == 0, st0.cons, st0.pend))
         states = {start: st0}
         work = [start]
         exits = {}
@@ -210,7 +237,7 @@ class E1B:
         steps = 0
         while work:
             key = work.pop()
-            bb, envk = key
+            bb, envk, _z = key
             st = states[key]
             env = dict(envk)
             steps += 1
@@ -220,6 +247,13 @@ class E1B:
             for blocks, c in floors:
                 if bb in blocks:
                     fl = max(fl, c)
+            if bb in heads:
+                # loop progress: coming back to a loop head without having consumed anything since the last visit
+                if bb in st.pend:
+                    self.spins[(fnkey, bb)] = self.spins.get((fnkey, bb), 0) + 1
+                else:
+                    self.loop_heads_seen.add((fnkey, bb))
+                st = st.copy(pend=st.pend | {bb})
             blk = f.blocks[bb]
             for s in blk["stmts"]:
                 if s["k"] == "assign":
@@ -235,7 +269,7 @@ class E1B:
                 outs.extend(self._switch(f, bb, t, env, st))
             elif k == "return":
                 rv = env.get(0, TOP)
-                ek = self._retkey(rv)
+                ek = (self._retkey(rv), st.cons)
                 old = exits.get(ek)
                 exits[ek] = st if old is None else old.join(st)
             elif k == "call":
@@ -257,13 +291,19 @@ class E1B:
                         if len(sv) > lim:
                             widened.setdefault(tg, set()).add(l)
                             e2.pop(l, None)
-                nk = (tg, self._envkey(e2))
+                if tg in heads and bb not in bodies[tg] and tg in s2.pend:
+                    # entering the loop from outside: only arrivals over a back edge say something about this loop's progress
+                    s2 = s2.copy(pend=s2.pend - {tg})
+                if tg in heads and tg in s2.pend:
+                    self.spin_sources.setdefault((fnkey, tg), set()).add(bb)
+                # states with a provably empty buffer are kept apart from the others (the scanner branches on buf_is_empty() twice in a row)
+                nk = (tg, self._envkey(e2), (s2.ub == 0, s2.cons, s2.pend))
                 old = states.get(nk)
                 new = s2 if old is None else old.join(s2)
                 if old is None or old.key() != new.key():
                     states[nk] = new
                     work.append(nk)
-        return [(v, rk) for rk, v in exits.items()]
+        return [(v, rk[0]) for rk, v in exits.items()]
 
     @staticmethod
     def _envkey(env):
@@ -412,6 +452,8 @@ class E1B:
                 v = env.get(p["l"], TOP)
                 if v is not TOP and v[0] == "ref":
                     return v
+                if v is not TOP and v[0] in ("var", "i"):
+                    return v        # reference to a promoted constant: transparent
             return TOP
         if k == "cast":
             v = self._val(f, env, rv["a"])
@@ -535,12 +577,16 @@ class E1B:
         while v is not TOP and v[0] == "not":
             v = v[1]
             neg = not neg
-        if v is not TOP and v[0] == "cb" and 0 in vals:
-            f_tg = tgs[vals.index(0)]
-            t_tg = other
+        if v is not TOP and v[0] == "cb" and (0 in vals or 1 in vals):
             tm, fm = v[2], v[3]
             if neg:
                 tm, fm = fm, tm
+            if 0 in vals:
+                f_tg = tgs[vals.index(0)]
+                t_tg = tgs[vals.index(1)] if 1 in vals else other
+            else:
+                t_tg = tgs[vals.index(1)]
+                f_tg = other
             e2 = dict(env)
             outs.append((t_tg, e2, self._refine(e2, st, v[1], tm)))
             e3 = dict(env)
@@ -568,6 +614,11 @@ class E1B:
                 if val == 1 or (val is None and 1 not in vals):
                     e2 = dict(env)
                     s2 = self._unlink_all(e2, st).copy(lb=0, ub=0, cons=True)
+                    # the Option that was read is Some(c) with c not a breakz (contract of raw_read_non_breakz_ch)
+                    dl = is_local(t["discr"])
+                    for l, vv in list(e2.items()):
+                        if vv == ("rawopt",):
+                            e2[l] = ("var", 1, ("ch", self.A.TOP & ~self.BREAKZ, None))
                     outs.append((tg, e2, s2))
                 elif val == 0 or (val is None and 0 not in vals):
                     e2 = dict(env)
@@ -752,6 +803,12 @@ class E1B:
                     cargs.append(v)
                 else:
                     cargs.append(TOP)
+            cs = self.call_entries.setdefault(target, {})
+            ckey = (fnkey, bb)
+            if ckey not in cs:
+                cs[ckey] = []
+            if len(cs[ckey]) < 64 and (st.win, tuple(cargs)) not in cs[ckey]:
+                cs[ckey].append((st.win, tuple(cargs)))
             exits = self.analyse(target, st, tuple(cargs), floor)
             outs = []
             allc = bool(exits)
@@ -775,6 +832,7 @@ class E1B:
                         elif v[0] == "not" and v[1][0] == "cb":
                             e2[l] = ("not", ("cb", None, v[1][2], v[1][3]))
                 s3 = s2.copy(cons=st.cons or s2.cons, enq=st.enq or s2.enq)
+                s3.pend = frozenset() if s2.cons else st.pend
                 if not dest["p"]:
                     if rk is TOP:
                         e2.pop(dest["l"], None)
